@@ -22,6 +22,19 @@ import XotModel.Model.Parse
 
 namespace XotModel
 
+/-! `Tree.Forall` is monotone in the predicate. -/
+mutual
+theorem forall_imp {p q : Value → List Tree → Prop} (h : ∀ v ks, p v ks → q v ks) :
+    ∀ t : Tree, t.Forall p → t.Forall q
+  | .node v ks, ht => by
+    rw [Tree.Forall] at ht ⊢
+    exact ⟨h v ks ht.1, forallList_imp h ks ht.2⟩
+theorem forallList_imp {p q : Value → List Tree → Prop} (h : ∀ v ks, p v ks → q v ks) :
+    ∀ ks : List Tree, Tree.Forall.forallList p ks → Tree.Forall.forallList q ks
+  | [], _ => trivial
+  | k :: ks, hk => ⟨forall_imp h k hk.1, forallList_imp h ks hk.2⟩
+end
+
 /-! ### The guards -/
 
 /-- `http://www.w3.org/2000/xmlns/` -/
